@@ -30,29 +30,42 @@ def breaker_cfg(draw):
         spec["trip_on"] = []
     elif t == "all":
         spec["trip_on"] = list(CLASSES)
-    if gen.chance(draw, 0.4, "bm-ct"):
-        spec["class_thresholds"] = draw(st.dictionaries(st.sampled_from(CLASSES), st.integers(1, 3), min_size=1, max_size=2))
+    if gen.chance(draw, 0.5, "bm-ct"):
+        spec["class_thresholds"] = draw(st.dictionaries(st.sampled_from(CLASSES), st.sampled_from([1, 2, 2, 3]), min_size=1, max_size=2))
     return spec
 
 
-def op_st():
+def op_st(counted: list):
+    """Operations; failure classes are mostly drawn from the classes this configuration counts."""
+    counted = counted or ["TRANSIENT"]
     return st.one_of(
         st.tuples(st.just("allow")),
         st.tuples(st.just("allow")),
         st.tuples(st.just("succ")),
-        st.tuples(st.just("fail"), st.sampled_from(["TRANSIENT", "SERVER_ERROR", "TRANSIENT", "UNKNOWN", "RATE_LIMIT", "PERMANENT"])),
+        st.tuples(st.just("fail"), st.sampled_from(counted)),
+        st.tuples(st.just("fail"), st.sampled_from(counted)),
+        st.tuples(st.just("fail"), st.sampled_from(counted)),
         st.tuples(st.just("fail"), st.sampled_from(CLASSES)),
         st.tuples(st.just("cancel")),
         st.tuples(st.just("state")),
         st.tuples(st.just("adv"), st.sampled_from([1, 1, 2, 4, 16, 64])),
         st.tuples(st.just("adv_rec"), st.sampled_from([-1, 0, 0, 1])),  # to recovery boundary (+/- 1 tick)
         st.tuples(st.just("adv_win"), st.sampled_from([-1, 0, 0, 1])),  # oldest live failure ages to window (+/- 1)
+        st.tuples(st.just("adv_win_class"), st.sampled_from(counted), st.sampled_from([-1, 0, 0, 1])),  # oldest live failure of that class
     )
+
+
+def counted_classes(spec: dict) -> list:
+    trip = spec.get("trip_on")
+    base = ["TRANSIENT", "SERVER_ERROR"] if trip is None else list(trip)
+    return sorted(set(base) | set(spec.get("class_thresholds") or {}))
 
 
 @st.composite
 def history_case(draw, max_ops: int = 60):
-    return {"breaker": draw(breaker_cfg()), "ops": [list(o) for o in draw(st.lists(op_st(), min_size=1, max_size=max_ops))]}
+    spec = draw(breaker_cfg())
+    ops = draw(st.lists(op_st(counted_classes(spec)), min_size=1, max_size=max_ops))
+    return {"breaker": spec, "ops": [list(o) for o in ops]}
 
 
 def make_real(spec: dict) -> CircuitBreaker:
@@ -95,6 +108,15 @@ def run_history(case: dict):
                 live = m.live(t)
                 if m.state == "closed" and live:
                     target = live[0][0] + m.window + op[1]
+                    if target > t:
+                        clock.t = clock.t0 + g(target)
+                        adv_since_fail = True
+                        info["boundary_age"] = True
+                continue
+            if kind == "adv_win_class":
+                live = [f for f in m.live(t) if f[1] == op[1]]
+                if m.state == "closed" and live:
+                    target = live[0][0] + m.window + op[2]
                     if target > t:
                         clock.t = clock.t0 + g(target)
                         adv_since_fail = True
